@@ -403,7 +403,7 @@ func main() {
 	rng := common.NewRng(args.Seed, "C27")
 	n := 320
 	if args.Tier == "thorough" {
-		n = 3000
+		n = 1500
 	}
 	cases := corpus()
 	for len(cases) < n {
